@@ -119,6 +119,18 @@ func init() {
 		latSig{part: "special", cases: re(`^promoted fields: the shallower one wins \(read\)$`), observe: re(`^reads ok d:1, want d:2$`)},
 		latSig{part: "special", cases: re(`^promoted fields: the shallower one wins \(write\)$`), observe: re(`^the write completed: script reads d:7, Go side 2 7 `)},
 	))
+	engine.RegisterSignature("c16-non-ascii-exported-field-hidden", anyOf(
+		latSig{part: "special", cases: re(`^exported field with a non-ASCII capital: read$`), observe: re(`^reads ok s:,,A, want `)},
+		latSig{part: "special", cases: re(`^exported field with a non-ASCII capital: write$`), observe: re(`^the write completed: script reads d:4, Go side 3 w 1 `)},
+	))
+	engine.RegisterSignature("c16-pointer-field-wrapper-tracks-slot", anyOf(
+		latSig{part: "special", cases: re(`^alias of a pointer field after replacement$`), observe: re(`^reads ok s:2,2, want s:1,2$`)},
+		latSig{part: "special", cases: re(`^alias of a pointer field after the field is set to null$`), observe: re(`^the retained reference reads u `)},
+	))
+	engine.RegisterSignature("c16-defineproperty-on-go-field-noop", anyOf(
+		latSig{part: "special", cases: re(`^Object\.defineProperty on a Go field \(value\)$`), observe: re(`^the write completed: script reads d:1, Go side 3 w 1 `)},
+		latSig{part: "special", cases: re(`^Object\.defineProperty on a Go field \(inconvertible value\)$`), observe: re(`^defineProperty with an inconvertible value: ok d:1, Go side 3 w 1$`)},
+	))
 	engine.RegisterSignature("c16-go-integer-copied-through-float64", anyOf(
 		latSig{part: "special", cases: re(`^copy int64 2\^53\+1 between elements$`), observe: re(`^the write completed: script reads d:0, Go side 9007199254740992 0 `)},
 	))
